@@ -12,6 +12,7 @@ type State struct {
 	rng    map[*Sym][2]int64  // refined ranges
 	kb     map[*Sym][2]uint64 // known bits of symbols: [zeros mask, ones mask]
 	facts  []*Term            // each: term <= 0
+	neq    []*Term            // each: term != 0
 	heap   map[int]Val
 	Events []Event
 	Trace  []string // branch decisions (witness)
@@ -35,6 +36,7 @@ func (st *State) Clone() *State {
 		n.kb[k] = v
 	}
 	n.facts = append([]*Term(nil), st.facts...)
+	n.neq = append([]*Term(nil), st.neq...)
 	for k, v := range st.heap {
 		n.heap[k] = cloneVal(v)
 	}
@@ -429,8 +431,17 @@ func (st *State) implied(t *Term) bool {
 	}
 	for _, f := range st.facts {
 		d := termAdd(t, f, -1)
-		if d.IsConst() && d.C <= 0 {
-			return true
+		if d.IsConst() {
+			if d.C <= 0 {
+				return true
+			}
+			continue
+		}
+		// t = f + d with f <= 0: enough that d <= 0 over the symbol ranges
+		if len(d.Syms) < len(t.Syms)+len(f.Syms) {
+			if _, hi, ok := st.termRange(d); ok && hi <= 0 {
+				return true
+			}
 		}
 	}
 	return false
@@ -491,6 +502,8 @@ func (st *State) Decide(op string, x, y *IntV) (val, known bool) {
 			eq, known = false, true
 		} else if d.IsConst() {
 			eq, known = d.C == 0, true
+		} else if st.knownNeq(d) {
+			eq, known = false, true
 		} else if st.implied(termAdd(d, constTerm(1), 1)) || st.implied(termAdd(termScale(d, -1), constTerm(1), 1)) {
 			eq, known = false, true
 		} else if x.W == y.W {
@@ -628,6 +641,8 @@ func (st *State) Assume(op string, x, y *IntV) bool {
 		st.facts = append(st.facts, termAdd(termScale(d, -1), constTerm(1), 1))
 	case "==":
 		st.facts = append(st.facts, d, termScale(d, -1))
+	case "!=":
+		st.neq = append(st.neq, d)
 	}
 	// bit-level refinement for ==/!= against a constant
 	if op == "==" || op == "!=" {
@@ -767,6 +782,15 @@ func (st *State) subsumed(v, k Val) bool {
 		vl, vh := st.Range(vv)
 		kl, kh := st.Range(kk)
 		return vl >= kl && vh <= kh
+	}
+	return false
+}
+
+func (st *State) knownNeq(d *Term) bool {
+	for _, n := range st.neq {
+		if termEq(n, d) || termEq(n, termScale(d, -1)) {
+			return true
+		}
 	}
 	return false
 }
